@@ -35,7 +35,9 @@ R_FACTORY = None
 # ---------------------------------------------------------------------------- slimta.smtp.client.Client (assumed here; C10)
 # the relay sees slimta.smtp.client.Client through an ASSUMED interface (ClientView); the real Client methods
 # that are under contract are in contracts/slimta_smtp_client.py (C10)
-klass('ClientView', fields={'last_error': 'Reply', 'extensions': 'Extensions'})
+klass('ClientView', fields={'last_error': 'Reply'})
+extern('ClientView.extensions', params={'self': 'ClientView'}, returns='Extensions', is_property=True, pure=True,
+       ensures=['result != None'], notes='Client.extensions: the Extensions object created by the constructor, never reassigned')
 # Client.io is assigned once, in the constructor: a read-only view (a pure function of the client object)
 extern('ClientView.io', params={'self': 'ClientView'}, returns='IO', is_property=True, pure=True, ensures=['result != None'],
        notes='Client.io: the IO object created by the constructor, never reassigned')
@@ -81,7 +83,7 @@ klass('SmtpRelayClient', ['RelayPoolClient'], module=M,
       fields={'client': 'ClientView', 'address': 'Any', 'socket': 'Any', 'socket_creator': 'SocketCreator', 'ehlo_as': 'UserCallable',
               'context': 'Any', 'auth_mechanism': 'Any', 'tls_immediately': 'Bool', 'tls_required': 'Bool',
               'connect_timeout': 'Opt[Real]', 'command_timeout': 'Opt[Real]', 'data_timeout': 'Opt[Real]',
-              'credentials': 'Any', 'binary_encoder': 'Any', 'current_command': 'Any'})
+              'credentials': 'UserCredentials', 'binary_encoder': 'Any', 'current_command': 'Any'})
 
 RC = dict(module=M, scope_timeouts=['self.connect_timeout', 'self.command_timeout', 'self.data_timeout'])
 ERR = {'SmtpRelayError': ['exc.reply != None'], 'ConnectionLost': [], 'BadReply': [], 'OSError': [], 'Timeout': [],
@@ -151,8 +153,11 @@ klass('UserCallable')
 extern('UserCallable.__call__', params={'self': 'UserCallable', 'arg': 'Any'}, returns='Any', raises={'TypeError': []},
        notes='user-supplied ehlo_as: a function of the address, or a string (calling it raises TypeError); does not block')
 stage('_ehlo', ensures=['result != None', 'not result.is_error()'])
-contract('SmtpRelayClient._authenticate', kind='extern', params={'self': 'SmtpRelayClient'}, yields=True,
-         raises=ERR, notes='SmtpRelayClient._authenticate assumed at its call site (user-supplied credentials callable)')
+klass('UserCredentials')
+extern('UserCredentials.__call__', params={'self': 'UserCredentials'}, returns='Any', raises={'TypeError': []},
+       notes='user-supplied credentials: a function returning the (authcid, secret[, authzid]) tuple, or the tuple itself '
+             '(calling it raises TypeError); does not block')
+stage('_authenticate', returns='None')
 
 # ---------------------------------------------------------------------------- one transaction, one request, one connection
 # (C11: the attempt always ends with a result or a relay error; C19: every request gets the result of its own
@@ -224,10 +229,20 @@ contract('SmtpRelayClient._send_envelope', props=['C11', 'C19', 'C06'],
                              'exists(rcpttos, lambda r: not r.is_error())'])},
          **RC)
 
-contract('SmtpRelayClient._handle_encoding', kind='extern', params={'self': 'SmtpRelayClient', 'envelope': 'Envelope'},
-         raises={'SmtpRelayError': ['exc.reply != None'], 'AssertionError': []},
-         notes='SmtpRelayClient._handle_encoding assumed at its call site (7-bit conversion through Envelope.encode_7bit, '
-               'C20 territory): returns, or raises a 554 relay error; sends nothing')
+extern('Envelope.encode_7bit', params={'self': 'Envelope', 'encoder': 'Any'}, defaults={'encoder': 'None'},
+       raises={'UnicodeDecodeError': [], 'UnicodeError': []},
+       notes='Envelope.encode_7bit (C20 territory, bounded there): converts the body or raises a UnicodeError when it '
+             'cannot (no encoder given and 8-bit data present)')
+contract('SmtpRelayClient._handle_encoding', props=['C11', 'C06'],
+         params={'self': 'SmtpRelayClient', 'envelope': 'Envelope'},
+         requires=['envelope != None'],
+         # 8-bit content for a 7-bit-only server: converted, or refused with a 554 relay error -- never passed on as
+         # it is, and nothing is sent; with 8BITMIME advertised the message is left alone
+         checks=['self.client != None', 'ncalls("Envelope.encode_7bit") == ite("8BITMIME" in self.client.extensions, 0, 1)'],
+         raises={'SmtpRelayError': ['exc.reply != None', 'exc.reply.code == "554"', 'self.client != None',
+                                    'not ("8BITMIME" in self.client.extensions)'],
+                 'AssertionError': ['self.client == None']},
+         modifies=['fresh'], **RC)
 
 contract('SmtpRelayClient._deliver', props=['C11', 'C19', 'C06'],
          params={'self': 'SmtpRelayClient', 'result': 'AsyncResult', 'envelope': 'Envelope'},
